@@ -112,7 +112,7 @@ func genFlowCase(t *rapid.T, o scriptOpts) flowCase {
 var c01Flow = Register(Prop[flowCase]{
 	ID: "C01", Name: "flow",
 	Gen: func(t *rapid.T) flowCase { return genFlowCase(t, defaultScriptOpts) },
-	Run: runC01, Render: renderFlow,
+	Run: runC01, Render: renderFlow, Minimize: minimizeFlow,
 })
 
 func TestC01Flow(t *testing.T) { Check(t, c01Flow) }
@@ -225,7 +225,7 @@ var c01AllPaths = Register(Prop[flowCase]{
 		c.Choices, c.Junk = nil, nil
 		return c
 	},
-	Run: runC01AllPaths, Render: renderFlow,
+	Run: runC01AllPaths, Render: renderFlow, Minimize: minimizeFlow,
 })
 
 func TestC01AllPaths(t *testing.T) { Check(t, c01AllPaths) }
